@@ -292,7 +292,7 @@ def sample(ctx, budget=1.0, hint=None, broken=None):
                         elif k == 'del' and n > 1:
                             i = r.randrange(n); del path[i]; hist.append('del p[%d]' % i)
                         elif k == 'ins':
-                            i = r.randint(0, n); path.insert(i, seg()); hist.append('insert(%d)' % i)
+                            i = r.choice([r.randint(0, n), r.randint(-n - 3, n + 3), -n, -n - 1, -1]); path.insert(i, seg()); hist.append('insert(%d)' % i)
                         elif k == 'app':
                             path.append(seg()); hist.append('append')
                         elif k == 'ext':
